@@ -2,7 +2,7 @@
    Note: [conf] (J2T.v, Section Denote) does not mention the options, so after the section closes it is
    [conf dlex D t v] (no [o] argument); [json_of] is [json_of dlex D o t v]. *)
 From Coq Require Import ZArith List Bool Lia.
-From DG Require Import ProtoWireRef ThriftWire Json Num Base64 J2T J2TProofs.
+From DG Require Import ProtoWireRef ThriftWire Json Num Base64 J2T J2TProofs J2TWalk J2TWalkTok J2TWalkProofs.
 Import ListNotations.
 Local Open Scope Z_scope.
 
@@ -487,3 +487,131 @@ From DG Require Gen_json GenJsonProofs.
 Theorem C02_IsSpace_from_source : forall c, 0 <= c < 256 -> Gen_json.IsSpace c = is_ws c.
 Proof. exact GenJsonProofs.IsSpace_is_ws. Qed.
 Print Assumptions C02_IsSpace_from_source.
+
+(* ================= algorithm level: J2TWalk = the PORTABLE converter's doRecurse (conv/j2t/impl_fallback.go) as coded =================
+   j2t_walk is tied to the portable converter by check 211 (bytes and error class on every generated document).  The native flavours
+   inherit the theorem below only through the differential checks that tie native = portable = the spec on conforming inputs
+   (C02 check 201 for the native path, C18 checks 1801 / 1807). *)
+
+(* HEADLINE: on the canonical text of every JSON AST in the spec's domain (the strict spec returns Ok b), the walk over the raw text —
+   tokeniser, whitespace skipping, member lookup, unknown-member skipping by bracket counting, null unwinding, list / map count
+   back-patch, string unquoting, base64, String2Int64, requires bitmap — produces exactly b and leaves exactly the rest r.
+   Hypotheses: write options and value mapping off (walk_ok_opts), no required fields (defs_plain: C16's subject),
+   strings valid UTF-8, and wdom: integer positions (values, String2Int64 strings, integer map keys) hold PLAIN integer lexemes
+   (an integer spelled with fraction / exponent goes through a double in the code: the drift class), and a double position does not
+   hold the plain integer lexeme -0 (the code reads +0.0).  Unknown members, nulls, nesting, escapes and all other doubles are covered. *)
+Theorem j2t_walk_refines_spec :
+  forall D o, walk_ok_opts o = true -> defs_plain D = true ->
+  forall j t s r b fuel,
+  json_wf j = true -> json_utf8 j = true -> wdom D t j = true ->
+  j2t_val strict D (jopts_of o) t s j = Ok b -> stop r = true ->
+  (length (json_print j ++ r) < fuel)%nat ->
+  walk D o fuel t (json_print j ++ r) = WOk b r.
+Proof. exact J2TWalkProofs.j2t_walk_refines_spec. Qed.
+Print Assumptions j2t_walk_refines_spec.
+
+Theorem j2t_walk_top_refines_spec :
+  forall D o, walk_ok_opts o = true -> defs_plain D = true ->
+  forall j t s b,
+  json_wf j = true -> json_utf8 j = true -> wdom D t j = true ->
+  j2t_val strict D (jopts_of o) t s j = Ok b ->
+  j2t_walk D o t (json_print j) = TOk b.
+Proof. exact J2TWalkProofs.j2t_walk_top_refines_spec. Qed.
+Print Assumptions j2t_walk_top_refines_spec.
+
+(* composed with j2t_encodes_denoted: the portable walk over the canonical document of a conforming value yields its Thrift encoding *)
+Theorem j2t_walk_encodes_denoted :
+  forall D o, walk_ok_opts o = true -> defs_plain D = true ->
+  forall dlex v t,
+  conf dlex D t v = true -> Z.of_nat (depth v) <= max_level ->
+  json_utf8 (json_of dlex D (jopts_of o) t v) = true -> wdom D t (json_of dlex D (jopts_of o) t v) = true ->
+  j2t_walk D o t (json_print (json_of dlex D (jopts_of o) t v)) = TOk (encode v).
+Proof.
+  intros D o Ho HD dlex v t Hc Hd Hu Hw.
+  apply (J2TWalkProofs.j2t_walk_top_refines_spec D o Ho HD _ t 1); [apply j2t_json_of_wf; exact Hc | exact Hu | exact Hw |].
+  apply j2t_encodes_denoted; [exact Hc | lia].
+Qed.
+Print Assumptions j2t_walk_encodes_denoted.
+
+(* error side, on canonical text, any descriptor table and options: a literal / array / object / number whose kind the type does not admit *)
+Theorem j2t_walk_kind_mismatch :
+  forall D o j t f r, kind_ok (jopts_of o) t j = false ->
+  match j with JNull | JNum _ | JStr _ => False | _ => True end ->
+  walk D o (S f) t (json_print j ++ r) = WErr W_DISMATCH.
+Proof. exact J2TWalkProofs.walk_kind_mismatch. Qed.
+Print Assumptions j2t_walk_kind_mismatch.
+
+Theorem j2t_walk_num_mismatch :
+  forall D o l t f r, num_okb l = true -> stop r = true -> is_num_ty t = false -> walk D o (S f) t (l ++ r) = WErr W_DISMATCH.
+Proof. exact J2TWalkProofs.walk_num_mismatch. Qed.
+Print Assumptions j2t_walk_num_mismatch.
+
+(* ... but NOT for strings (finding 212): a string for a descriptor that takes none is dropped and the walk carries on with the
+   next value; at the top level the portable converter returns empty output and nil error where the spec says Err.
+   This is why there is no clean `spec Err -> walk Err` theorem. *)
+Theorem j2t_walk_string_mismatch_skips :
+  forall D o x t f r, jbytes_okb x = true -> utf8_valid x = true -> kind_ok (jopts_of o) t (JStr x) = false ->
+  walk D o (S f) t (quote_ref x ++ r) = walk D o f t r.
+Proof. exact J2TWalkProofs.walk_string_mismatch_skips. Qed.
+Print Assumptions j2t_walk_string_mismatch_skips.
+
+Theorem j2t_walk_string_mismatch_refuted :
+  forall D o x t, jbytes_okb x = true -> utf8_valid x = true -> kind_ok (jopts_of o) t (JStr x) = false ->
+  j2t_walk D o t (json_print (JStr x)) = TOk [] /\ exists c, j2t_val strict D (jopts_of o) t 1 (JStr x) = Err c.
+Proof. exact J2TWalkProofs.j2t_walk_string_mismatch_silent. Qed.
+Print Assumptions j2t_walk_string_mismatch_refuted.
+
+(* the fuel of j2t_walk always suffices (for every text, descriptor and option set) *)
+Theorem j2t_walk_never_out_of_fuel : forall D o t text, j2t_walk D o t text <> TErr W_FUEL.
+Proof. exact J2TWalkProofs.j2t_walk_never_fuel. Qed.
+Print Assumptions j2t_walk_never_out_of_fuel.
+
+(* leaf facts the refinement rests on *)
+Theorem j2t_walk_unquote_quote : forall s, jbytes_okb s = true -> utf8_valid s = true -> go_unquote (quote_ref s) = Some s.
+Proof. exact J2TWalkTok.go_unquote_quote. Qed.
+Print Assumptions j2t_walk_unquote_quote.
+
+Theorem j2t_walk_skip_value_print : forall x r, json_wf x = true -> stop r = true -> skip_value (json_print x ++ r) = Some r.
+Proof. exact J2TWalkTok.skip_value_print. Qed.
+Print Assumptions j2t_walk_skip_value_print.
+
+Theorem j2t_walk_float_syntax : forall l, num_okb l = true -> go_float_dec l = lex_decimal l.
+Proof. exact J2TWalkTok.go_float_dec_lex. Qed.
+Print Assumptions j2t_walk_float_syntax.
+
+(* ================= algorithm level: J2TWalk (the portable converter's doRecurse as coded) ================= *)
+Definition wD : defs := [[mkFld 1 [[97]] TI32 2 false; mkFld 2 [[98]] (TList TString) 2 false; mkFld 3 [[109]] (TMap TI64 (TStruct 1)) 0 false;
+                          mkFld 4 [[100]] TDouble 0 false; mkFld 5 [[120]] TBinary 2 false; mkFld 6 [[116]] TBool 2 false];
+                         [mkFld 1 [[120]] TBool 2 false]].
+Definition wo0 : wopts := mkWopts false false false false false false false.
+
+(* {"a":1,"b":["x",null,"y"],"m":{"7":{"x":true}},"zz":[1,{"q":"]"}],"d":0.5}  and the same text with blanks between all tokens *)
+Example ex_walk_doc :
+  j2t_walk wD wo0 (TStruct 0)
+    [123;34;97;34;58;49;44;34;98;34;58;91;34;120;34;44;110;117;108;108;44;34;121;34;93;44;34;109;34;58;123;34;55;34;58;123;34;120;34;58;116;114;117;101;125;125;44;
+     34;122;122;34;58;91;49;44;123;34;113;34;58;34;93;34;125;93;44;34;100;34;58;48;46;53;125]
+  = TOk [8;0;1;0;0;0;1; 15;0;2;11;0;0;0;2;0;0;0;1;120;0;0;0;1;121; 13;0;3;10;12;0;0;0;1;0;0;0;0;0;0;0;7;2;0;1;1;0; 4;0;4;63;224;0;0;0;0;0;0; 0]
+  /\ j2t_walk wD wo0 (TStruct 0) [32;123;10;34;97;34;32;58;9;49;32;125;13] = TOk [8;0;1;0;0;0;1;0].
+Proof. vm_compute. split; reflexivity. Qed.
+
+(* the walk and the strict spec agree on that text (instance of j2t_walk_refines_spec) *)
+Example ex_walk_eq_spec :
+  j2t_do strict wD (jopts_of wo0) (TStruct 0) [123;34;97;34;58;49;44;34;109;34;58;123;34;55;34;58;123;125;125;125]
+  = Ok [8;0;1;0;0;0;1;13;0;3;10;12;0;0;0;1;0;0;0;0;0;0;0;7;0;0] /\
+  j2t_walk wD wo0 (TStruct 0) [123;34;97;34;58;49;44;34;109;34;58;123;34;55;34;58;123;125;125;125]
+  = TOk [8;0;1;0;0;0;1;13;0;3;10;12;0;0;0;1;0;0;0;0;0;0;0;7;0;0].
+Proof. vm_compute. split; reflexivity. Qed.
+
+(* peculiarities of the code reproduced by the walk (each differs from the strict spec, which rejects all five texts):
+   {"t":"x" true}  — the string falls out of the switch and the next value is converted;   {"a":007};   {"d":1e999} reads as 0;
+   a top-level string literal abc cut off by the end of the text (no closing quote) for a string descriptor yields ab;
+   300 for a byte descriptor keeps 44; a top-level null and an unknown member under DisallowUnknownField are errors *)
+Example ex_walk_peculiar :
+  j2t_walk wD wo0 (TStruct 0) [123;34;116;34;58;34;120;34;32;116;114;117;101;125] = TOk [2;0;6;1;0] /\
+  j2t_walk wD wo0 (TStruct 0) [123;34;97;34;58;48;48;55;125] = TOk [8;0;1;0;0;0;7;0] /\
+  j2t_walk wD wo0 (TStruct 0) [123;34;100;34;58;49;101;57;57;57;125] = TOk [4;0;4;0;0;0;0;0;0;0;0;0] /\
+  j2t_walk wD wo0 TString [34;97;98;99] = TOk [0;0;0;2;97;98] /\
+  j2t_walk wD wo0 TByte [51;48;48] = TOk [44] /\
+  j2t_walk wD wo0 (TStruct 0) [110;117;108;108] = TErr W_OTHER /\
+  j2t_walk wD (mkWopts true false false false false false false) (TStruct 0) [123;34;122;34;58;49;125] = TErr W_UNKNOWN.
+Proof. vm_compute. repeat split; reflexivity. Qed.
